@@ -200,6 +200,31 @@ func exhaustive(tag string, n, k int, negz bool) {
 	}
 }
 
+// all ordered vertex tuples, unclosed spelling only
+func exhaustiveOpen(tag string, n, k int) {
+	m := (k + 1) * (k + 1)
+	idx := make([]int, n)
+	for {
+		rg := make(ring, n)
+		for i, v := range idx {
+			rg[i] = pt(float64(v%(k+1)), float64(v/(k+1)))
+		}
+		emitGrid(tag, -2, 2*k+2, false, poly(rg))
+		i := 0
+		for i < n {
+			idx[i]++
+			if idx[i] < m {
+				break
+			}
+			idx[i] = 0
+			i++
+		}
+		if i == n {
+			return
+		}
+	}
+}
+
 func randPolygon(r *vproto.Rng, k int, den float64) geom.Polygon {
 	nr := 1
 	switch r.Intn(6) {
@@ -273,8 +298,11 @@ func bigGrid(r *vproto.Rng, n int) {
 			emitPt("big-mid", mid, pg)
 			emitPt("big-near", pt(mid.X+0.5, mid.Y), pg)
 			emitPt("big-near", pt(mid.X-0.5, mid.Y), pg)
+			lo, hi := int(2*math.Min(a.X, b.X))-3, int(2*math.Max(a.X, b.X))+3
+			emitPt("big-vray", pt(float64(r.Range(lo, hi))/2, a.Y), pg)
+			lo, hi = int(2*math.Min(a.Y, b.Y))-3, int(2*math.Max(a.Y, b.Y))+3
+			emitPt("big-vcol", pt(a.X, float64(r.Range(lo, hi))/2), pg)
 			emitPt("big-vray", pt(float64(r.Range(-2100, 2100))/2, a.Y), pg)
-			emitPt("big-vcol", pt(a.X, float64(r.Range(-2100, 2100))/2), pg)
 		}
 	}
 }
@@ -316,8 +344,20 @@ func floatCases(r *vproto.Rng, n int) {
 		for j := range pg {
 			nv := 3 + r.Intn(8)
 			rg := make(ring, nv)
-			for k := range rg {
-				rg[k] = coord()
+			if r.Chance(0.6) { // star-shaped around the centre: a sizeable interior
+				a0 := r.Float() * 2 * math.Pi
+				for k := range rg {
+					ang := a0 + 2*math.Pi*(float64(k)+0.8*r.Float())/float64(nv)
+					rad := scale * (0.15 + 0.35*r.Float()) / float64(j+1)
+					rg[k] = pt(cx+rad*math.Cos(ang), cy+rad*math.Sin(ang))
+				}
+				if r.Bool() {
+					rg = reversed(rg)
+				}
+			} else {
+				for k := range rg {
+					rg[k] = coord()
+				}
 			}
 			if fam == 3 { // an edge 1..3 ulps high
 				k := r.Intn(nv)
@@ -339,7 +379,7 @@ func floatCases(r *vproto.Rng, n int) {
 		var p geom.Point
 		ok := false
 		for try := 0; try < 50 && !ok; try++ {
-			p = pt(cx+(r.Float()-0.5)*scale*1.3, cy+(r.Float()-0.5)*scale*1.3)
+			p = pt(cx+(r.Float()-0.5)*scale*1.1, cy+(r.Float()-0.5)*scale*1.1)
 			rg := pg[r.Intn(nr)]
 			switch fam {
 			case 2, 3:
@@ -366,12 +406,20 @@ func floatCases(r *vproto.Rng, n int) {
 func receivers(r *vproto.Rng, n int) {
 	for i := 0; i < n; i++ {
 		var pg geom.Geom
-		switch r.Intn(4) {
+		big := ring{pt(0, 0), pt(5, 0), pt(5, 5), pt(0, 5)}
+		switch r.Intn(6) {
 		case 0:
 			pg = geom.MultiPolygon{randPolygon(r, 8, 2), randPolygon(r, 8, 2)}
 		case 1:
 			a := gridRing(r, 2, 8, 2)
 			pg = &geom.Bounds{Min: a[0], Max: a[1]}
+		case 2: // a big square, possibly with a hole or a second member: most vertices are not Outside
+			pg = poly(spell(r, big))
+		case 3:
+			h := gridRing(r, 2, 8, 2)
+			pg = poly(spell(r, big), ring{h[0], pt(h[1].X, h[0].Y), h[1], pt(h[0].X, h[1].Y)})
+		case 4:
+			pg = geom.MultiPolygon{poly(spell(r, big)), randPolygon(r, 3, 2)}
 		default:
 			pg = randPolygon(r, 8, 2)
 		}
@@ -400,19 +448,21 @@ func gen(seed uint64, tier string) {
 	r := vproto.NewRng(seed)
 	fixedCorpus()
 	if tier == "thorough" {
-		exhaustive("tri3", 3, 3, false)
 		exhaustive("tri", 3, 2, true)
-		exhaustive("quad2", 4, 2, false)
-		sampled(r, 6000)
-		bigGrid(r, 600)
-		floatCases(r, 100000)
-		receivers(r, 5000)
+		exhaustive("tri3", 3, 3, true)
+		exhaustive("quad2", 4, 2, true)
+		exhaustiveOpen("quad3", 4, 3)
+		sampled(r, 20000)
+		bigGrid(r, 1500)
+		floatCases(r, 150000)
+		receivers(r, 15000)
 	} else {
 		exhaustive("tri", 3, 2, true)
-		sampled(r, 700)
-		bigGrid(r, 60)
-		floatCases(r, 4000)
-		receivers(r, 600)
+		exhaustive("tri3", 3, 3, false)
+		sampled(r, 4000)
+		bigGrid(r, 300)
+		floatCases(r, 20000)
+		receivers(r, 3000)
 	}
 	w.Flush()
 }
